@@ -34,6 +34,11 @@ pub enum Pos {
     ValueRefBound,
     /// the same as a SEQUENCE component
     ValueRefComponent,
+    /// `f INTEGER { nn(x) } (lo..hi) DEFAULT nn` next to a value assignment `nn INTEGER ::= <far
+    /// outside lo..hi>`: inside the value notation of the type the named number wins (X.680 19.13)
+    NamedDefault,
+    /// `v INTEGER { nn(x) } (lo..hi) ::= nn` next to the same value assignment
+    NamedValue,
     /// union / serial combination (random)
     Combo,
     /// the same as a SEQUENCE component (a different width-selection routine)
@@ -124,6 +129,20 @@ fn case_text(i: usize, c: &Case) -> String {
         Pos::ParamComponent => format!("T{i} ::= SEQUENCE {{ f Bounded {{ {}, {} }} }}", c.lo.unwrap(), c.hi.unwrap()),
         Pos::Value => format!("T{i} ::= INTEGER {k}\nv{i} T{i} ::= {}", c.x.unwrap()),
         Pos::Default => format!("T{i} ::= SEQUENCE {{ f INTEGER {k} DEFAULT {} }}", c.x.unwrap()),
+        Pos::NamedDefault | Pos::NamedValue => {
+            let x = c.x.unwrap();
+            let decoy = match (c.lo, c.hi) {
+                (_, Some(h)) => h + 1000,
+                (Some(l), None) => l - 1000,
+                (None, None) => x + 1000,
+            };
+            let ty = format!("INTEGER {{ nn{i}({x}), other{i}(0) }} {k}");
+            if c.pos == Pos::NamedDefault {
+                format!("nn{i} INTEGER ::= {decoy}\nT{i} ::= SEQUENCE {{ f {ty} DEFAULT nn{i} }}")
+            } else {
+                format!("nn{i} INTEGER ::= {decoy}\nT{i} ::= NULL\nv{i} {ty} ::= nn{i}")
+            }
+        }
         Pos::SeqOfValue => {
             let lo = c.lo.unwrap();
             format!("T{i} ::= NULL\nm-first{i} INTEGER ({lo}..{lo}) ::= {lo}\na-list{i} SEQUENCE OF INTEGER {k} ::= {{ m-first{i}, {x} }}\nz-list{i} SEQUENCE OF INTEGER {k} ::= {{ m-first{i}, {x} }}\np-list{i} SEQUENCE OF INTEGER {k} ::= {{ {lo}, {x} }}", x = c.x.unwrap())
@@ -206,12 +225,25 @@ fn observe(m: &RModule, i: usize, c: &Case) -> Result<Obs, String> {
                 }
             }
         }
-        Pos::Component | Pos::Default | Pos::ComboComponent | Pos::ParamComponent | Pos::ValueRefComponent => {
+        Pos::NamedValue => {
+            let k = m.find_const(&format!("V{i}")).ok_or_else(|| format!("constant V{i} missing"))?;
+            let decl = payload_int(m, &k.ty, 0).ok_or_else(|| format!("V{i}: type {} has no integer payload", k.ty))?;
+            o.types.push((format!("V{i} type"), decl.clone()));
+            for (v, suffix) in int_literals(&k.init) {
+                let declared = match suffix {
+                    Some(s) if s == "i128" => "Integer".to_string(),
+                    Some(s) => s,
+                    None => decl.clone(),
+                };
+                o.literals.push((format!("V{i} = {}", k.init), declared, v));
+            }
+        }
+        Pos::Component | Pos::Default | Pos::NamedDefault | Pos::ComboComponent | Pos::ParamComponent | Pos::ValueRefComponent => {
             let s = m.find_struct(&t).ok_or_else(|| format!("{t} missing"))?;
             let f = s.fields.first().ok_or("no field")?;
             let ty = f.ty.trim_start_matches("Option<").trim_end_matches('>').to_string();
             o.types.push((format!("{t}.f"), ty.clone()));
-            if c.pos == Pos::Default {
+            if c.pos == Pos::Default || c.pos == Pos::NamedDefault {
                 let fname = f.attrs.default.clone().ok_or("no default fn")?;
                 let func = m.find_fn(&fname).ok_or("default fn missing")?;
                 o.types.push((format!("{fname} return"), func.ret.clone()));
@@ -533,6 +565,10 @@ pub fn run(tier: Tier, seed: u64, replay: Option<String>) -> i32 {
                     for x in xs {
                         cases.push(Case { pos: Pos::Value, x: Some(x), ..base.clone() });
                         cases.push(Case { pos: Pos::Default, x: Some(x), ..base.clone() });
+                        if pair_idx % 2 == 1 || tier == Tier::Thorough {
+                            cases.push(Case { pos: Pos::NamedDefault, x: Some(x), ..base.clone() });
+                            cases.push(Case { pos: Pos::NamedValue, x: Some(x), ..base.clone() });
+                        }
                         if lo.is_some() && hi.is_some() && !ext && pair_idx % 2 == 0 {
                             cases.push(Case { pos: Pos::SeqOfValue, x: Some(x), ..base.clone() });
                         }
